@@ -264,10 +264,7 @@ theorem packFS_ne_fuel (h : History) (T : Tid) (gc : Bool) : packFS h T gc ≠ .
                             exact ihr he4
                           · simp
                     exact this _ he''
-                  · simp only at he'
-                    split at he'
-                    · cases he'
-                    · cases he'
+                  · cases he'
                 · exact ih _
             exact this _ _ he
           · simp
